@@ -97,6 +97,20 @@ pub fn c06_bogus(m: &mut Mon, w: &mut World, idx: usize) {
     if bogus.is_empty() {
         return;
     }
+    // "bogus" is judged against the data, not against the host's book-keeping: a result fed in a run that failed
+    // with a P/U code (previous data returned) was not consumed, its call is still pending in the trace
+    {
+        let me = w.ids[peer].clone();
+        let dprev = interp::dec(&prev);
+        let still_pending = dprev.trace.iter().any(|s| match s {
+            ExecutedState::Call(CallResult::RequestSentBy(Sender::PeerIdWithCallId { peer_id, call_id })) => **peer_id == me && bogus.contains(&call_id.to_string()),
+            _ => false,
+        });
+        if still_pending {
+            m.count("c06_bogus_id_still_pending_in_data");
+            return;
+        }
+    }
     let mut twin_res = results.clone();
     for b in &bogus {
         twin_res.remove(b);
